@@ -467,9 +467,9 @@ Section Core.
     - simpl in Hok'. apply andb_prop in Hok' as [Hn Hrest]. inversion Hnd as [|? ? Hnotin Hnd']; subst.
       destruct n as [al nm args ak dirs hs subs|]; [|discriminate].
       cbn [node_ok] in Hn. apply andb_prop in Hn as [Hn1 Hn3]. apply andb_prop in Hn1 as [Hal Hdirs].
-      destruct dirs; [|discriminate]. destruct (alias_ok_parts _ _ Hal) as [Hal1 [Hal2 [Hfed Htn]]].
+      destruct (alias_ok_parts _ _ Hal) as [Hal1 [Hal2 [Hfed Htn]]].
       cbn [child_plan] in Hc.
-      assert (HAal : lookup al A = None) by (apply (HA (NField al nm args ak [] hs subs) (or_introl eq_refl))).
+      assert (HAal : lookup al A = None) by (apply (HA (NField al nm args ak dirs hs subs) (or_introl eq_refl))).
       cbn [n_alias] in *.
       assert (HA' : forall v, forall n0, In n0 locs -> lookup (n_alias n0) (A ++ [(al, v)]) = None).
       { intros v n0 Hin. rewrite lookup_app, (HA n0 (or_intror Hin)). simpl.
@@ -529,8 +529,8 @@ Section Core.
   Proof.
     intros obj sels H. induction sels as [|n t IH]; [reflexivity|]. simpl in H. apply andb_prop in H as [Hn Ht].
     simpl. destruct n as [al nm args ak dirs hs subs|]; [|discriminate].
-    cbn [node_ok] in Hn. apply andb_prop in Hn as [Hn _]. apply andb_prop in Hn as [_ Hd]. destruct dirs; [|discriminate].
-    simpl. rewrite IH; auto.
+    cbn [node_ok] in Hn. apply andb_prop in Hn as [Hn _]. apply andb_prop in Hn as [_ Hd].
+    cbn [included]. rewrite Hd, IH; auto.
   Qed.
 
   Lemma tagged_spec : forall obj svc sels tagged,
@@ -1135,16 +1135,16 @@ Section Core.
     (* a selection with alias __typename is the __typename field, a leaf, and is local *)
     assert (Hloc_tn : forall n, In n body -> n_alias n = "__typename" ->
                       In n (sels_for tagged svc) /\
-                      exists args ak, n = NField "__typename" "__typename" args ak [] false []).
+                      exists args ak dirs, n = NField "__typename" "__typename" args ak dirs false []).
     { intros n Hn Ha. eapply forallb_forall in Hnok as Hno; [|exact Hn].
       destruct n as [al nm args ak dirs hs subs|]; [|discriminate]. simpl in Ha. subst al. cbn [node_ok] in Hno.
-      apply andb_prop in Hno as [Hno Hno3]. apply andb_prop in Hno as [Halok Hd]. destruct dirs; [|discriminate].
+      apply andb_prop in Hno as [Hno Hno3]. apply andb_prop in Hno as [Halok Hd].
       destruct (alias_ok_parts _ _ Halok) as [_ [_ [_ Htn]]]. pose proof (proj1 Htn eq_refl) as Hnm. subst nm.
       rewrite String.eqb_refl in Hno3. apply andb_prop in Hno3 as [Hhs Hsubs]. apply negb_true_iff in Hhs. subst hs.
       destruct subs; [|discriminate].
       destruct (in_sels_tagged _ _ _ _ _ Ht Hn) as [t0 [Hin Hs]].
       destruct (sels_for_in _ _ _ _ _ _ Ht Hs) as [_ Htar]. simpl in Htar. inversion Htar; subst t0. split; [exact Hs|].
-      exists args, ak. reflexivity. }
+      exists args, ak, dirs. reflexivity. }
     split.
     - rewrite map_app, existsb_app, Htt1, orb_false_r, Hal.
       destruct (existsb (String.eqb "__typename") (map n_alias body)) eqn:E.
@@ -1157,7 +1157,7 @@ Section Core.
         { apply existsb_eqb_In. rewrite <- Ha. apply in_map; exact Hn'. }
         congruence.
     - intros E. apply existsb_eqb_In in E. apply in_map_iff in E as [n [Ha Hn]].
-      destruct (Hloc_tn n Hn Ha) as [Hs [args [ak ->]]].
+      destruct (Hloc_tn n Hn Ha) as [Hs [args [ak [dirs ->]]]].
       rewrite evs_app, lookup_app.
       set (n' := NField "__typename" "__typename" args ak [] false []).
       assert (Hin' : In n' (map fst planned)).
@@ -1406,27 +1406,27 @@ Section Core.
   Lemma coord_locs : forall sels tagged n,
     mapo (target_of g pick "Query" coordinator) sels = Some tagged ->
     forallb (node_ok g (RObj "Query")) sels = true -> In n (sels_for tagged coordinator) ->
-    exists al args ak, n = NField al "__typename" args ak [] false [].
+    exists al args ak dirs, n = NField al "__typename" args ak dirs false [].
   Proof.
     intros sels tagged n Ht Hnok Hn. destruct (sels_for_in _ _ _ _ _ _ Ht Hn) as [Hin Htar].
     destruct (target_of_spec g pick pick_sound _ _ _ _ _ Htar) as [_ [al [nm [args [ak [dirs [hs [subs [-> Hcase]]]]]]]]].
     destruct Hcase as [[-> _]|[rty [owners [Hf Hown]]]]; [|exfalso; eapply owner_not_coord; eauto].
     eapply forallb_forall in Hnok; [|exact Hin]. cbn [node_ok] in Hnok.
-    apply andb_prop in Hnok as [Hno Hno3]. apply andb_prop in Hno as [_ Hd]. destruct dirs; [|discriminate].
+    apply andb_prop in Hnok as [Hno Hno3]. apply andb_prop in Hno as [_ Hd].
     rewrite String.eqb_refl in Hno3. apply andb_prop in Hno3 as [Hhs Hsubs]. apply negb_true_iff in Hhs. subst hs.
-    destruct subs; [|discriminate]. exists al, args, ak. reflexivity.
+    destruct subs; [|discriminate]. exists al, args, ak, dirs. reflexivity.
   Qed.
 
   Lemma coord_planned : forall fuel locs planned,
-    (forall n, In n locs -> exists al args ak, n = NField al "__typename" args ak [] false []) ->
+    (forall n, In n locs -> exists al args ak dirs, n = NField al "__typename" args ak dirs false []) ->
     Forall2 (fun n p => child_plan g pick fuel "Query" coordinator n = Some p) locs planned ->
-    map fst planned = locs /\ List.concat (map snd planned) = [] /\
-    root_typenames "Query" locs = tn_entries "Query" locs.
+    List.concat (map snd planned) = [] /\
+    root_typenames "Query" (map fst planned) = tn_entries "Query" locs.
   Proof.
     intros fuel locs planned Hall HF. induction HF as [|n p locs planned Hn _ IH]; [auto|].
-    destruct IH as [I1 [I2 I3]]; [intros m Hm; apply Hall; right; exact Hm|].
-    destruct (Hall n (or_introl eq_refl)) as [al [args [ak ->]]]. cbn [child_plan] in Hn. inversion Hn; subst p.
-    simpl. rewrite I1, I2. split; [reflexivity|]. split; [reflexivity|].
+    destruct IH as [I2 I3]; [intros m Hm; apply Hall; right; exact Hm|].
+    destruct (Hall n (or_introl eq_refl)) as [al [args [ak [dirs ->]]]]. cbn [child_plan] in Hn. inversion Hn; subst p.
+    simpl. rewrite I2. split; [reflexivity|].
     unfold root_typenames in *. cbn [flat_map]. rewrite I3. reflexivity.
   Qed.
 
@@ -1508,13 +1508,13 @@ Section Core.
     assert (Hnds : NoDup (map n_alias flat)) by (apply nodup_str_NoDup; exact Hnd0).
     pose proof (mapo_Forall2 _ _ _ Hp) as Fp. pose proof (mapo_Forall2 _ _ _ Ho) as Fo.
     set (locs := sels_for tagged coordinator) in *. set (others := others_of coordinator tagged) in *.
-    assert (Hlocs : forall n, In n locs -> exists al args ak, n = NField al "__typename" args ak [] false [])
+    assert (Hlocs : forall n, In n locs -> exists al args ak dirs, n = NField al "__typename" args ak dirs false [])
       by (intros n Hn; eapply coord_locs; eauto).
-    destruct (coord_planned fuel locs planned Hlocs Fp) as [Hfst [Hsnd Hrt]].
+    destruct (coord_planned fuel locs planned Hlocs Fp) as [Hsnd Hrt].
     assert (Hshape : afters = oplans /\ root_typenames "Query" ss = tn_entries "Query" locs).
     { destruct Hcase as [[Hoth [-> ->]]|[Hoth [_ [-> Hfedsel]]]].
-      - rewrite Hoth in Fo. inversion Fo; subst. rewrite Hsnd, Hfst. auto.
-      - rewrite Hsnd. split; [reflexivity|]. destruct Hfedsel as [[_ ->]|[_ ->]]; rewrite ?root_typenames_app, Hfst, Hrt; [reflexivity|].
+      - rewrite Hoth in Fo. inversion Fo; subst. rewrite Hsnd. auto.
+      - rewrite Hsnd. split; [reflexivity|]. destruct Hfedsel as [[_ ->]|[_ ->]]; rewrite ?root_typenames_app, Hrt; [reflexivity|].
         rewrite key_selection_eq. cbn. apply app_nil_r. }
     destruct Hshape as [-> Hss].
     rewrite exec_plan_eq, String.eqb_refl, Hss.
@@ -1545,7 +1545,7 @@ Section Core.
           * left. apply in_map; exact Hl.
           * right. exists o, n. auto.
       - intros n Hn. destruct (Hgroup n Hn) as [Hl|[o [Ho' Hs]]].
-        + destruct (Hlocs n Hl) as [al [args [ak ->]]]. exists (JStr "Query"). split; [|rewrite nval_annot; unfold fval_gen; rewrite String.eqb_refl; constructor].
+        + destruct (Hlocs n Hl) as [al [args [ak [dirs ->]]]]. exists (JStr "Query"). split; [|rewrite nval_annot; unfold fval_gen; rewrite String.eqb_refl; constructor].
           rewrite lookup_app.
           assert (Hl1 : lookup al (tn_entries "Query" locs) = Some (JStr "Query")).
           { clear -Hl. induction locs as [|x r IHl]; [contradiction|]. simpl. destruct Hl as [->|Hl].
